@@ -231,10 +231,15 @@ def modelable(req):
     return all(v is None or (isinstance(v, (int, np.integer)) and not isinstance(v, bool)) for v in req[:4])
 
 
+KEPT_EXCEPTIONS = []      # exception objects (with their tracebacks, hence the frames of the failed call) a caller holds on to
+
+
 def _fetch(fn, *a, **k):
     try:
         return ('ok', fn(*a, **k))
     except Exception as e:  # noqa: BLE001
+        if KEPT_EXCEPTIONS and KEPT_EXCEPTIONS[0] == 'keep':
+            KEPT_EXCEPTIONS.append(e)       # as `pytest.raises`, logging with exc_info, a REPL or `errors.append(e)` do
         return ('err', type(e).__name__ + ': ' + str(e)[:120])
 
 
@@ -709,6 +714,13 @@ def _seg_history(ctx, cfg, reader, E, segs, R, C, base_hist, reqs=None, pending=
     if len(segs) == 1:
         refusals = [k for k in refusals if k != 'combine-bool']     # bool represents label 1
     use_model = reqs is not None and typ != 'LABELMAP'      # a label map is read without a channel table
+    # does the caller hold on to the exceptions of refused calls for the rest of the history (their tracebacks keep the frames of the
+    # failed read, and whatever those frames own, alive)?
+    keep = cfg['idx'] % 2 == 0
+    del KEPT_EXCEPTIONS[:]
+    if keep:
+        KEPT_EXCEPTIONS.append('keep')
+    base_hist = dict(base_hist, exceptions_kept=keep)
     msteps, mimpl, mcases = [], [], []
     steps = ['pixel_array'] + [r.choice(['stacked', 'stacked', 'combined', 'combined', 'combined-relabel', 'rescaled', 'dtype', 'subset',
                                          'refused', 'refused', 'refused'])
@@ -836,6 +848,7 @@ def _seg_history(ctx, cfg, reader, E, segs, R, C, base_hist, reqs=None, pending=
                 ctx.fail(case, {'what': 'a region read modified the cached pixel_array of the segmentation'},
                          site='Segmentation.get_total_pixel_matrix')
                 cache = np.array(pa, copy=True) if st2 == 'ok' else None
+    del KEPT_EXCEPTIONS[:]
     if use_model and msteps:
         mats = [E[s_].tolist() for s_ in segs]
         reqs.append(('segHistory', {'matrices': mats, 'segments': list(segs), 'rows': R, 'cols': C, 'th': cfg['th'], 'tw': cfg['tw'],
